@@ -1,2 +1,4 @@
 //! Independent PDF producer (oracle side). Never calls the library's serialiser, encoders or crypto.
+pub mod file;
 pub mod filters;
+pub mod val;
